@@ -190,6 +190,9 @@ def pressure_configs(tier):
             cfgs.append((mf, uf, bad, ut, 'T'))
             cfgs.append((mf, bad, mt, ut, 'T'))
             cfgs.append((mf, uf, mt, bad, 'T'))
+        # the same unknown (or missing) unit on both sides
+        for bad in INVALID:
+            cfgs.append((mf, bad, mt, bad, 'T'))
         if (mf == 'absolute') != (mt == 'absolute'):
             cfgs.append((mf, uf, mt, ut, None))
             cfgs.append((mf, uf, mt, ut, 0))
@@ -274,6 +277,7 @@ def loading_configs(tier):
             cfgs.append((bf, uf, bad, ut, 'mass', 'g'))
             cfgs.append((bf, bad, bt, ut, 'mass', 'g'))
             cfgs.append((bf, uf, bt, bad, 'mass', 'g'))
+            cfgs.append((bf, bad, bt, bad, 'mass', 'g'))  # the same unknown (or missing) unit on both sides
     cfgs.append(('molar', 'kg', 'mass', 'g', None, None))
     cfgs.append(('mass', 'g', 'molar', 'cm3', None, None))
     seen, out = set(), []
@@ -333,6 +337,7 @@ def material_configs(tier):
         for bad in INVALID:
             cfgs.append((bf, bad, bt, ut))
             cfgs.append((bf, uf, bt, bad))
+            cfgs.append((bf, bad, bt, bad))  # the same unknown (or missing) unit on both sides
     cfgs.append(('mass', 'cm3', 'mass', 'g'))
     cfgs.append(('mass', 'g', 'volume', 'kg'))
     seen, out = set(), []
